@@ -143,6 +143,46 @@ mod test {
     }
 
     #[test]
+    fn test_numeric_for_variable_not_visible_in_header() {
+        let mut ws = VirtualWorkspace::new();
+        let file_id = ws.def("local n = 10\nfor n = 1, n do f(n) end\n");
+        let db = ws.analysis.compilation.get_db();
+        let tree = db
+            .get_decl_index()
+            .get_decl_tree(&file_id)
+            .expect("decl tree must exist");
+        // the limit `n` (offset 24) is the outer local (offset 6), the `n` in the body (offset 31) is the loop variable (offset 17)
+        let limit = tree
+            .find_local_decl("n", rowan::TextSize::new(24))
+            .expect("local must be found");
+        assert_eq!(u32::from(limit.get_position()), 6);
+        let in_body = tree
+            .find_local_decl("n", rowan::TextSize::new(31))
+            .expect("local must be found");
+        assert_eq!(u32::from(in_body.get_position()), 17);
+    }
+
+    #[test]
+    fn test_for_variables_not_visible_in_header_closure() {
+        let mut ws = VirtualWorkspace::new();
+        let file_id = ws.def("local k = 1\nfor k, v in f(function() return k end) do g(k) end\n");
+        let db = ws.analysis.compilation.get_db();
+        let tree = db
+            .get_decl_index()
+            .get_decl_tree(&file_id)
+            .expect("decl tree must exist");
+        // the `k` returned by the closure (offset 44) is the outer local (offset 6), the `k` in the body (offset 56) is the loop variable (offset 16)
+        let in_closure = tree
+            .find_local_decl("k", rowan::TextSize::new(44))
+            .expect("local must be found");
+        assert_eq!(u32::from(in_closure.get_position()), 6);
+        let in_body = tree
+            .find_local_decl("k", rowan::TextSize::new(56))
+            .expect("local must be found");
+        assert_eq!(u32::from(in_body.get_position()), 16);
+    }
+
+    #[test]
     fn test_local_assignment_closure_cannot_see_self() {
         let mut ws = VirtualWorkspace::new();
         assert!(!ws.has_no_diagnostic(
